@@ -359,7 +359,7 @@ def run(ctx):
     uni = list(enumerate_universe())
     ctx.map(uni, chunk=500)
     ctx.exhaustive = True
-    n = 6000 if ctx.quick else 200000
+    n = 40000 if ctx.quick else 400000
     ctx.hyp('strat_full', n, label=1)
     # CLI sample drawn deterministically from the enumerated universe
     sample = [c for c in uni if 'hks' not in c['pol'] and 'dh' not in c['pol']]
